@@ -729,7 +729,8 @@ int process_patch(const Options& options)
             }
 
             if (result.failed_hunks == 0) {
-                if (write_to_file && patch.operation == Operation::Rename) {
+                // NOTE: what is written to some other file with -o leaves the file it comes from alone.
+                if (write_to_file && patch.operation == Operation::Rename && options.out_file_path.empty()) {
                     // The new file of a git patch has not been written yet, the old one must outlive that.
                     if (patch.format == Format::Git)
                         deferred_writer.deferred_remove(file_to_patch, should_backup);
